@@ -198,6 +198,16 @@ Theorem rdm2_dense : forall (R : CRing) k1 b1 k2 b2 (t : ttree R) (o : ptree R) 
 Proof. exact TtnsEnvProofs.rdm2_dense. Qed.
 Print Assumptions rdm2_dense.
 
+(* get_skip_pidx is a function of (state basis node, operator basis node); no function of the operator node alone
+   reproduces it (one operator used with states on different basis trees), and it is empty for equal DoF lists *)
+Theorem skip_pidx_needs_state_node : ~ exists f : list nat -> list nat, forall sd od, skip_pidx sd od = f od.
+Proof. exact TtnsEnvProofs.skip_pidx_needs_state_node. Qed.
+Print Assumptions skip_pidx_needs_state_node.
+
+Theorem skip_pidx_same : forall sd, skip_pidx sd sd = [].
+Proof. exact TtnsEnvProofs.skip_pidx_same. Qed.
+Print Assumptions skip_pidx_same.
+
 Theorem find_path_is_path : forall p1 p2, is_chain (find_path p1 p2).
 Proof. exact TtnsEnvProofs.find_path_is_path. Qed.
 Print Assumptions find_path_is_path.
@@ -305,3 +315,7 @@ Example ex_rdm2_value :
     tamp ZRing (ex_t 1) [r; x; [1%nat]; [0%nat]] 0 * tamp ZRing (ex_t 1) [r; x; [0%nat]; [0%nat]] 0))
   /\ find_path [0%nat; 0%nat] [1%nat] = [[0%nat; 0%nat]; [0%nat]; []; [1%nat]].
 Proof. vm_compute. split; reflexivity. Qed.
+(* one operator node (DoF 1), two state nodes: own tree -> nothing skipped; P+Q tree (DoFs 1 and 7) -> index 1 skipped *)
+Example ex_skip_pidx : skip_pidx [1%nat] [1%nat] = [] /\ skip_pidx [1%nat; 7%nat] [1%nat] = [1%nat]
+  /\ keep_mask [1%nat; 7%nat] [1%nat] = [true; false].
+Proof. repeat split. Qed.
